@@ -311,6 +311,42 @@ pub fn run(tier: Tier) -> i32 {
         if idents.len() > 24 && tier == Tier::Quick {
             idents.truncate(24);
         }
+        // bracketed groups: emptied (`match x {}`, `f()`, `[]`, a body without statements) and removed
+        // as a whole; every matching pair of (), [] and {}
+        {
+            let mut stack: Vec<usize> = vec![];
+            for i in 0..lx.len() {
+                match lx[i].1.as_str() {
+                    "(" | "[" | "{" => stack.push(i),
+                    ")" | "]" | "}" => {
+                        if let Some(o) = stack.pop() {
+                            let ok = matches!((lx[o].1.as_str(), lx[i].1.as_str()), ("(", ")") | ("[", "]") | ("{", "}"));
+                            if ok {
+                                if i > o + 1 {
+                                    let mut d = lx.clone();
+                                    d.drain(o + 1..i);
+                                    cases.push(Case { kind: "empty-group", origin: name.clone(), text: join(&d, &tail).into_bytes() });
+                                }
+                                let mut d = lx.clone();
+                                d.drain(o..=i);
+                                cases.push(Case { kind: "group-delete", origin: name.clone(), text: join(&d, &tail).into_bytes() });
+                            }
+                        }
+                    }
+                    _ => {}
+                }
+            }
+        }
+        // deletion of every span of two and of three neighbouring tokens
+        if heavy {
+            for len in [2usize, 3] {
+                for i in 0..lx.len().saturating_sub(len - 1) {
+                    let mut d = lx.clone();
+                    d.drain(i..i + len);
+                    cases.push(Case { kind: "span-delete", origin: name.clone(), text: join(&d, &tail).into_bytes() });
+                }
+            }
+        }
         for i in 0..lx.len() {
             // deletion, duplication, adjacent swap
             let mut d = lx.clone();
